@@ -102,6 +102,77 @@ def rule_consulted(program, ctx):
                 ctx.bad(finding_at(P, rid, c, "start_client is not given the configured rate limiter"))
 
 
+def rule_counted_once(program, ctx, prop=P, rid="C18.once"):
+    ctx.rule(
+        rid,
+        "a message is counted once: is_limited both decides and records, so along a connection's path on_websocket -> start_client the limiter is consulted once per "
+        "accepted connection (the literal [\"ACCEPT\"] in on_websocket only) and once per received frame (`message` in start_client only); a second consultation of the "
+        "same thing halves the configured rate - the message is refused although no rule has passed n",
+        floor=2,
+    )
+    ws = program.func("nostr_relay.web:NostrAPI.on_websocket")
+    sc = program.func("nostr_relay.web:start_client")
+    recv = {t.id for s_ in walk_no_nested(sc) if isinstance(s_, ast.Assign) and "ws_recv" in ast.unparse(s_.value) or isinstance(s_, ast.Assign) and "json_loads" in ast.unparse(s_.value) or isinstance(s_, ast.Assign) and "validate_message" in ast.unparse(s_.value) for t in s_.targets if isinstance(t, ast.Name)}
+    for fn, want in ((ws, "accept"), (sc, "frame")):
+        calls = [c for c in walk_no_nested(fn) if isinstance(c, ast.Call) and isinstance(c.func, ast.Attribute) and c.func.attr == "is_limited"]
+        for c in calls:
+            arg = c.args[1] if len(c.args) > 1 else None
+            literal = isinstance(arg, (ast.List, ast.Tuple))
+            if want == "frame" and (literal or not (isinstance(arg, ast.Name) and arg.id in recv)):
+                ctx.bad(finding_at(prop, rid, c, f"start_client consults the limiter for `{ast.unparse(arg)[:40] if arg is not None else ''}`, which is not the frame just received: "
+                                   "every connection driven through NostrAPI.on_websocket has already been counted there - the pseudo-command is recorded twice and refused at half the configured rate"))
+            elif want == "accept" and not literal:
+                ctx.bad(finding_at(prop, rid, c, "on_websocket consults the limiter for something other than the literal connection pseudo-command"))
+            else:
+                ctx.ok(rid, c, f"{qual_of(fn)}: is_limited({ast.unparse(arg)[:30]})")
+        if len(calls) > 1:
+            ctx.bad(finding_at(prop, rid, calls[1], f"{qual_of(fn)} consults the limiter {len(calls)} times per {'connection' if want == 'accept' else 'frame'}: each call records the message again"))
+        if not calls:
+            ctx.bad(finding_func(prop, rid, fn, f"{qual_of(fn)} no longer consults the limiter", text=f"def {fn.name}(...) :: is_limited"))
+
+
+MONOTONIC = ("time.perf_counter", "time.monotonic", "time.perf_counter_ns", "time.monotonic_ns")
+
+
+def rule_clock(program, ctx, prop=P, rid="C18.clock"):
+    ctx.rule(
+        rid,
+        "windows are measured on a clock that cannot step: RateLimiter._timestamp (the only time source of is_limited and cleanup) reads time.perf_counter / "
+        "time.monotonic - with the wall clock (time.time, datetime.now) a backwards step (NTP, manual set, VM resume) makes `now - ts[0]` negative or small, the old entries "
+        "stay inside every window and messages are refused although no rule has passed n in any real interval; a forward step forgets the history (> n pass)",
+        floor=1,
+    )
+    rl = program.cls("nostr_relay.rate_limiter:RateLimiter")
+    ts = rl.methods.get("_timestamp")
+    if ts is None:
+        raise AnalysisError("RateLimiter._timestamp not found")
+    imports = program.imports_of(rl.module)
+    n = 0
+    for c in ast.walk(ts):
+        if isinstance(c, ast.Call):
+            d = dotted(c.func)
+            if not d or d.startswith("self."):
+                continue
+            head, _, rest = d.partition(".")
+            full = imports.get(head, head) + ("." + rest if rest else "")
+            n += 1
+            if full in MONOTONIC:
+                ctx.ok(rid, c, f"_timestamp reads {full}")
+            elif full.startswith(("time.", "datetime.")) or full in ("time",):
+                ctx.bad(finding_at(prop, rid, c, f"RateLimiter._timestamp reads `{full}`, a clock that can be stepped: the sliding windows are no longer real intervals"))
+    if not n:
+        ctx.bad(finding_func(prop, rid, ts, "RateLimiter._timestamp reads no clock", text="def _timestamp(...)"))
+    # every `now` in the limiter comes from _timestamp
+    for name in ("is_limited", "cleanup"):
+        fn = rl.methods.get(name)
+        for c in (ast.walk(fn) if fn is not None else []):
+            if isinstance(c, ast.Call) and not dotted(c.func).startswith("self."):
+                head, _, rest = dotted(c.func).partition(".")
+                full = imports.get(head, head) + ("." + rest if rest else "")
+                if full.startswith(("time.", "datetime.")) and full not in MONOTONIC:
+                    ctx.bad(finding_at(prop, rid, c, f"RateLimiter.{name} reads `{full}` directly instead of the limiter's monotonic _timestamp()"))
+
+
 def rule_record(program, ctx):
     rid = ctx.rule(
         "C18.record",
@@ -438,6 +509,8 @@ def run(program, ctx):
 
     rule_awaited(program, ctx, P, ANCHORS)
     rule_consulted(program, ctx)
+    rule_clock(program, ctx)
+    rule_counted_once(program, ctx)
     rule_record(program, ctx)
     rule_bounded_ends(program, ctx)
     rule_allrules(program, ctx)
